@@ -574,6 +574,15 @@ macro_rules! num_one {
 }
 
 fn fam_num(rng: &mut Rng, n: usize, out: &mut Out) {
+    macro_rules! consts {
+        ($t:ty, $w:expr, $q:expr) => {
+            out.emit(&format!("num_consts {} {}", $w, $q), Some(format!("{} {} {} {} {}", <$t as Coefficient>::ONE, <$t as Coefficient>::NEG_ONE, <$t as Coefficient>::ZERO, <$t as Coefficient>::MIN, <$t as Coefficient>::MAX)));
+        };
+    }
+    consts!(i8, 8, 6);
+    consts!(i16, 16, 14);
+    consts!(i32, 32, 30);
+    consts!(i64, 64, 62);
     for i in 0..n {
         match i % 4 {
             0 => num_one!(i8, i16, 8, 6, rng, out),
@@ -1215,11 +1224,15 @@ macro_rules! fbq_hist {
             0 => {
                 let mut xy: [$t; 4] = [rfloat(rng) as $t, rfloat(rng) as $t, rfloat(rng) as $t, rfloat(rng) as $t];
                 for _ in 0..$len {
-                    let x0 = if constant { xc } else { rfloat(rng) as $t };
+                    let mut x0 = if constant { xc } else { rfloat(rng) as $t };
+                    // now and then an infinite or NaN sample (the clamp must still hold the output inside the limits)
+                    let special = rng.chance(1, 40);
+                    if special { x0 = [<$t>::INFINITY, <$t>::NEG_INFINITY, <$t>::NAN][rng.below(3) as usize]; }
                     let before = xy;
                     let y = bq.update(&mut xy, x0);
-                    if !y.is_finite() { break; }
+                    if !y.is_finite() && !special { break; }
                     out.emit(&format!("f_bq4 {} {} {} {}", $bits, cfg, list(&before.map(b)), b(x0)), Some(format!("{} {}", list(&xy.map(b)), b(y))));
+                    if special { break; }
                 }
             }
             1 => {
@@ -1247,6 +1260,8 @@ macro_rules! fbq_hist {
 }
 
 fn fam_fbiquad(rng: &mut Rng, n: usize, out: &mut Out) {
+    out.emit("f_consts 32", Some(list(&[<f32 as Coefficient>::ONE, <f32 as Coefficient>::NEG_ONE, <f32 as Coefficient>::ZERO, <f32 as Coefficient>::MIN, <f32 as Coefficient>::MAX].map(|v| v.to_bits()))));
+    out.emit("f_consts 64", Some(list(&[<f64 as Coefficient>::ONE, <f64 as Coefficient>::NEG_ONE, <f64 as Coefficient>::ZERO, <f64 as Coefficient>::MIN, <f64 as Coefficient>::MAX].map(|v| v.to_bits()))));
     let start = out.lines;
     while out.lines - start < n {
         let len = 1 + rng.below(30) as usize;
